@@ -11,6 +11,7 @@ import (
 	"path/filepath"
 	"reflect"
 	"runtime"
+	"runtime/debug"
 	"strconv"
 	"strings"
 	"sync"
@@ -39,6 +40,7 @@ var apiFiles = []treeFile{
 	{Name: "getvar", Src: "get:{{ total }}"},
 	{Name: "row1", Src: "row:{{ r.title }}"},
 	{Name: "row2", Src: "row:{{ r.name }}{{ r.count }}"},
+	{Name: "poly", Src: "poly:{{ v.len() }}|{{ v }}|@if(v){{ v.len() }}@end"},
 }
 
 // two different struct types with one name (function-local types): what a render sees of one must not depend on
@@ -55,6 +57,15 @@ func rowTwo() any {
 	}
 	return row{Name: "N2", Count: 2}
 }
+
+// fnMix calls every kind of built-in once (nothing random): package-level scratch state in any of them shows as a data
+// race or as a result that differs from the solo run
+const fnMix = `|{{ items.join("-") }}|{{ items.reverse() }}|{{ items.slice(1) }}|{{ items.append(4).len() }}|{{ items.prepend(0) }}` +
+	`|{{ items.contains(2) }}|{{ items.len() }}|{{ who.upper() }}|{{ "Ab c".lower() }}|{{ "abc".last() }}|{{ "a b".trimLeft() }}|{{ "a b".trimRight() }}` +
+	`|{{ "abc".reverse() }}|{{ "héllo".len() }}|{{ "ab".repeat(3) }}|{{ "a,b,c".split(",") }}|{{ "  x ".trim() }}|{{ "abc".contains("b") }}` +
+	`|{{ "abc".at(-1) }}|{{ "abc".first() }}|{{ "abcdef".truncate(2) }}|{{ "ab cd".capitalize() }}|{{ "12".decimal() }}|{{ 3.5.round() }}` +
+	`|{{ 3.2.ceil() }}|{{ 3.7.floor() }}|{{ -2.abs() }}|{{ 2.float() }}|{{ 2.str() }}|{{ 1234.decimal() }}|{{ 2.5.int() }}|{{ 2.5.str() }}|{{ 2.5.abs() }}|{{ 12.len() }}|{{ "<b>".raw() }}|{{ true.binary() }}` +
+	`|{{ false.then("y", "n") }}|{{ {a: 1, b: [2, 3]} }}|@dump(items)`
 
 const okPage = "<h>T</h><b>(1,)(2,)(3)[Bo:BO]</b>"
 const customPage = "<custom>error page</custom>"
@@ -131,7 +142,7 @@ func apiSetup(cfg apiCfg, errPageExists bool) (*apiEnv, error) {
 		}
 		files = append(files, f)
 	}
-	files = append(files, treeFile{Path: "plain.tw", Src: "file:{{ who }}"})
+	files = append(files, treeFile{Path: "plain.tw", Src: "file:{{ who }}" + fnMix})
 	root, err := setupTree(files, treeCfg{Dir: cfg.Dir, Ext: cfg.Ext})
 	if err != nil {
 		return nil, err
@@ -171,6 +182,16 @@ func (e *apiEnv) run(o apiOp) (sig string, body string, ok bool) {
 	if o.Page == "row1" || o.Page == "row2" {
 		data["r"] = rowOf()
 	}
+	// one template, rendered with a receiver of another type than in the call before
+	page := o.Page
+	switch o.Page {
+	case "polyS":
+		page, data["v"] = "poly", "abc"
+	case "polyA":
+		page, data["v"] = "poly", []string{"x", "y"}
+	case "polyI":
+		page, data["v"] = "poly", 1234
+	}
 	// the root path and this call's own "who" are normalised; any other call's "who" stays visible in the signature
 	norm := func(s string) string { return strings.ReplaceAll(s, e.root, "$ROOT") }
 	defer func() {
@@ -182,7 +203,7 @@ func (e *apiEnv) run(o apiOp) (sig string, body string, ok bool) {
 	}()
 	switch o.K {
 	case "String":
-		out, ferr := e.tpl.String(o.Page, data)
+		out, ferr := e.tpl.String(page, data)
 		if ferr != nil {
 			sig = fmt.Sprintf("ERR line=%d path=%s msg=%s", ferr.Line(), norm(ferr.Filepath()), norm(ferr.Message()))
 		} else {
@@ -190,7 +211,7 @@ func (e *apiEnv) run(o apiOp) (sig string, body string, ok bool) {
 		}
 	case "Response":
 		w := httptest.NewRecorder()
-		err := e.tpl.Response(w, o.Page, data)
+		err := e.tpl.Response(w, page, data)
 		body = w.Body.String()
 		if err != nil {
 			sig = "ERR " + norm(err.Error()) + " BODY " + norm(body)
@@ -198,7 +219,7 @@ func (e *apiEnv) run(o apiOp) (sig string, body string, ok bool) {
 			sig, ok = "OK BODY "+body, true
 		}
 	case "EvalString":
-		src := "s:{{ who }}{{ items }}"
+		src := "s:{{ who }}{{ items }}" + fnMix
 		switch o.Page {
 		case "ok":
 		case "setvar":
@@ -231,6 +252,7 @@ func (e *apiEnv) run(o apiOp) (sig string, body string, ok bool) {
 	if o.Page == "row1" || o.Page == "row2" {
 		delete(data, "r")
 	}
+	delete(data, "v")
 	if data != nil && !reflect.DeepEqual(data, apiDataN(dataN)) {
 		sig += " DATA-MODIFIED"
 	}
@@ -557,7 +579,21 @@ func cmdRace(args []string) int {
 			wg.Add(1)
 			go func() {
 				defer wg.Done()
+				var cur apiOp
+				defer func() {
+					// a panic of the real code in a concurrent call is its behaviour, not a failure of the harness
+					if r := recover(); r != nil {
+						mu.Lock()
+						bad++
+						b, _ := json.Marshal(Result{ID: fmt.Sprintf("stress round %d cfg=%+v panic in %v", rounds, cfg, cur), Status: "viol", Kind: "panic",
+							Site: siteOf(string(debug.Stack())), Msg: fmt.Sprintf("%v panicked in a concurrent run: %v", cur, r), Tags: []string{"stress", cur.K + ":" + cur.Page}})
+						w.Write(b)
+						w.WriteByte('\n')
+						mu.Unlock()
+					}
+				}()
 				for _, o := range ops {
+					cur = o
 					for k := 0; k < noise; k++ {
 						runtime.Gosched()
 					}
